@@ -4,10 +4,11 @@ Property theorems only (helper lemmas live in Lemmas/ParserRun.lean).
 -/
 import VaxisModel.Model.ParserRun
 import VaxisModel.Lemmas.ParserRun
+import VaxisModel.Lemmas.Parser
 
 namespace VaxisModel.Props.C08
 open VaxisModel.Model.ParserTable VaxisModel.Model.Parser VaxisModel.Model.ParserRun
-open VaxisModel.Lemmas.ParserRun
+open VaxisModel.Lemmas.ParserRun VaxisModel.Lemmas.ParserAbs VaxisModel.Lemmas.Parser
 
 /-- **Exactly one EOF, last, then the channel is closed** — for every sequence of labels
     (reads of any runes, end of input or read error at any point, Close() at any point, timer
@@ -24,5 +25,161 @@ theorem eof_once_last (T : Table) (c : Bool) (ls : List Label) (s : Sys) (out : 
     exact absurd h (by decide)
   have := run_EofInv T c ls Sys.init [] s out h0 h
   simpa [EofInv] using this
+
+/-- The facts about the timer and the channel that the model hard-codes are those of the source:
+    10 ms delay, the callback resets `ignoreST` with the state, channel capacity 2. -/
+theorem gen_lifecycle_constants :
+    Gen.ParserTable.escDelayMs = 10 ∧ Gen.ParserTable.timerClearsIgnoreST = true ∧
+    Gen.ParserTable.chanCap = 2 := by decide
+
+/-- **No panic, invariant kept** along every race-free run from the initial state: no `panic`
+    item is ever emitted (no nil `p.exit()` call on BEL, no action on the rune of an `eof`), and
+    while the loop runs `p.exit` is the exit function of the current state, `ignoreST` is only set
+    inside a control string or in escape, and the timer is only pending in the escape state. -/
+theorem no_panic (ls : List Label) (hl : ls.all (fun l => !l.isRace) = true) (s : Sys) (out : List Seq)
+    (h : Sys.run handTable true Sys.init ls = some (s, out)) :
+    Seq.panic ∉ out ∧ (s.pc ≠ .done → invB (α s.ps) = true ∧ (s.armed = true → s.ps.state = .escape)) := by
+  obtain ⟨h1, h2⟩ := run_SInv ls hl Sys.init s out SInv_init h
+  exact ⟨h2, h1⟩
+
+/-- **The read ending ends the loop**: from any state blocked in the read, end of input or a read
+    error is enabled and leads to `done` in that one step (with the EOF item, by `eof_once_last`). -/
+theorem read_end_stops (T : Table) (c : Bool) (s : Sys) (h : s.pc = .inRead) :
+    ∃ s' o, Sys.step T c s .readEnd = some (s', o) ∧ s'.pc = .done ∧ o.getLast? = some .eof := by
+  simp only [Sys.step, h, if_true, finishing]
+  exact ⟨_, _, rfl, rfl, by simp⟩
+
+/-- **Close followed by the reader returning stops it**: after `Close()`, once the pending read
+    has returned a rune (and that rune has been handled), the loop cannot start another read; its
+    only move is to leave, emitting EOF. -/
+theorem close_then_read_stops (s : Sys) (hinv : SInv s) (h : s.pc = .inRead) (r : Nat) :
+    let s1 : Sys := { s with closeReq := true, ps := (pstep s.ps (.rune r)).st, pc := .atSelect,
+                             armed := startsTimer handTable r }
+    Sys.run handTable true s [.closeSig, .read r] = some (s1, (pstep s.ps (.rune r)).out) ∧
+    Sys.step handTable true s1 .enterRead = none ∧
+    (Sys.step handTable true s1 .breakClose).map (fun x => (x.1.pc, x.2)) = some (.done, [.eof]) := by
+  have hi := hinv (by rw [h]; decide)
+  have hs := hand_inv_step s.ps hi.1 (.rune r)
+  have hstop : (VaxisModel.Model.Parser.step handTable s.ps (.rune r)).stop = false := by
+    have := hs.2.2; simpa [pstep, isEof] using this
+  refine ⟨?_, ?_, ?_⟩
+  · simp [Sys.run, Sys.step, h, hstop, pstep]
+  · simp [Sys.step]
+  · simp [Sys.step, finishing]
+
+/-- **No deadlock**: in every state that is not `done` a move of the main goroutine is enabled
+    (start a read or leave at the `select`; return from the read otherwise). -/
+theorem progress (T : Table) (c : Bool) (s : Sys) (h : s.pc ≠ .done) :
+    (Sys.step T c s .enterRead).isSome ∨ (Sys.step T c s .breakClose).isSome ∨
+    (Sys.step T c s .readEnd).isSome := by
+  cases hpc : s.pc with
+  | done => exact absurd hpc h
+  | inRead => right; right; simp [Sys.step, hpc]
+  | atSelect =>
+    cases hc : s.closeReq with
+    | false => left; simp [Sys.step, hpc, hc]
+    | true => right; left; simp [Sys.step, hpc, hc]
+
+/-! ## Escape key -/
+
+/-- **Escape-key accounting**: in every race-free run the number of `C0 0x1B` items delivered is
+    exactly the number of times the timer fired while the parser was blocked in a read — the
+    automaton itself never produces one (ESC is intercepted by `anywhere`).  So an ESC promptly
+    followed by further bytes is never reported as Escape, and a lone ESC is reported once. -/
+theorem esc_reports_eq_timer_firings (ls : List Label) (hl : ls.all (fun l => !l.isRace) = true)
+    (s s' : Sys) (out : List Seq) (h : Sys.run handTable true s ls = some (s', out)) :
+    out.count (.c0 0x1B) = ls.count .timerFire :=
+  run_esc_count true ls hl s s' out h
+
+/-- **Lone ESC**: a read returns ESC, the loop blocks in the next read, 10 ms pass: exactly one
+    `C0 0x1B` (after whatever the ESC itself terminated), the parser is in ground with nothing
+    collected and no ST pending, the timer is spent (it cannot fire again), and the next rune is
+    therefore parsed from the ground state. -/
+theorem lone_esc (s : Sys) (hpc : s.pc = .inRead) (hcl : s.closeReq = false) :
+    let s' : Sys := { s with ps := timerReset true (pstep s.ps (.rune 0x1B)).st, pc := .inRead, armed := false }
+    Sys.run handTable true s [.read 0x1B, .enterRead, .timerFire] =
+        some (s', (pstep s.ps (.rune 0x1B)).out ++ [.c0 0x1B]) ∧
+      s'.ps.state = .ground ∧ s'.ps.inter = [] ∧ s'.ps.params = [] ∧ s'.ps.ignoreST = false ∧
+      Sys.step handTable true s' .timerFire = none := by
+  have hst : startsTimer handTable 0x1B = true := by decide
+  have hstop : (VaxisModel.Model.Parser.step handTable s.ps (.rune 0x1B)).stop = false := by
+    cases he : s.ps.exit with
+    | none => have := pstep_esc s.ps he; simp only [pstep] at this; rw [this]
+    | some f => have := pstep_esc_exit s.ps f he; simp only [pstep] at this; rw [this]
+  have hclear : (pstep s.ps (.rune 0x1B)).st.inter = [] ∧ (pstep s.ps (.rune 0x1B)).st.params = [] := by
+    cases he : s.ps.exit with
+    | none => rw [pstep_esc s.ps he]; exact ⟨rfl, rfl⟩
+    | some f => rw [pstep_esc_exit s.ps f he]; exact ⟨rfl, rfl⟩
+  refine ⟨?_, rfl, hclear.1, hclear.2, rfl, ?_⟩
+  · simp [Sys.run, Sys.step, hpc, hcl, hstop, hst, pstep]
+  · simp [Sys.step]
+
+/-- **Prompt ESC**: if the next read returns before the timer fires, the timer is stopped: no
+    Escape report is produced by these steps, the rune is handled in the escape state, and the timer
+    cannot fire afterwards (unless that rune was itself an ESC). -/
+theorem esc_prompt (s : Sys) (hinv : SInv s) (hpc : s.pc = .inRead) (hcl : s.closeReq = false) (r : Nat)
+    (hr : r ≠ 0x1B) :
+    let out := (pstep s.ps (.rune 0x1B)).out ++ (pstep (pstep s.ps (.rune 0x1B)).st (.rune r)).out
+    let s' : Sys := { s with ps := (pstep (pstep s.ps (.rune 0x1B)).st (.rune r)).st, pc := .atSelect, armed := false }
+    Sys.run handTable true s [.read 0x1B, .enterRead, .read r] = some (s', out) ∧
+      Seq.c0 0x1B ∉ out ∧ Sys.step handTable true s' .timerFire = none := by
+  have hst : startsTimer handTable 0x1B = true := by decide
+  have hi := hinv (by rw [hpc]; decide)
+  have h1 := hand_inv_step s.ps hi.1 (.rune 0x1B)
+  have hstop1 : (VaxisModel.Model.Parser.step handTable s.ps (.rune 0x1B)).stop = false := by
+    have := h1.2.2; simpa [pstep, isEof] using this
+  have h2 := hand_inv_step (pstep s.ps (.rune 0x1B)).st (h1.1 rfl) (.rune r)
+  have hstop2 : (VaxisModel.Model.Parser.step handTable
+      (VaxisModel.Model.Parser.step handTable s.ps (.rune 0x1B)).st (.rune r)).stop = false := by
+    have := h2.2.2; simpa [pstep, isEof] using this
+  have harm : startsTimer handTable r = false := by rw [startsTimer_hand]; simp [hr]
+  refine ⟨?_, ?_, ?_⟩
+  · simp [Sys.run, Sys.step, hpc, hcl, hstop1, hstop2, harm, pstep]
+  · intro h
+    rcases List.mem_append.mp h with h | h
+    · exact pstep_no_esc_key _ _ h
+    · exact pstep_no_esc_key _ _ h
+  · simp [Sys.step]
+
+/-! ## Delivered sequences are immutable until Finish -/
+
+/-- **Ownership invariant of the pools.**  For every sequence of parser writes (`collect`, with or
+    without reallocation), `clear`s, dispatches that hand the current array to a delivered sequence
+    and take *any* pooled array or a new one, and consumer `Finish` calls (each delivered array handed
+    back at most once — `finish b` is only enabled while `b` is held), in any order and however far
+    the parser runs ahead: the array the parser writes to is never one that a delivered, unfinished
+    sequence refers to; pooled and held arrays are disjoint and without duplicates. -/
+theorem delivered_immutable (ls : List OwnLabel) (o : Own) (h : Own.run {} ls = some o)
+    (l : OwnLabel) (o' : Own) (b : Nat) (hw : Own.step o l = some (o', some b)) :
+    b ∉ o.held ∧ b ∉ o'.held ∧ OwnInv o' := by
+  have hinv := run_OwnInv ls {} o OwnInv_init h
+  obtain ⟨h1, h2⟩ := own_step_inv o l o' (some b) hinv hw
+  refine ⟨?_, h2 b rfl, h1⟩
+  -- only `collect` writes, and it leaves `held` unchanged
+  cases l with
+  | collect re =>
+    simp only [Own.step] at hw
+    split at hw
+    · simp only [Option.some.injEq, Prod.mk.injEq] at hw
+      obtain ⟨rfl, _⟩ := hw
+      exact h2 b rfl
+    · simp only [Option.some.injEq, Prod.mk.injEq] at hw
+      obtain ⟨rfl, _⟩ := hw
+      exact h2 b rfl
+  | clear => simp [Own.step] at hw
+  | dispatch g =>
+    simp only [Own.step] at hw
+    split at hw
+    · cases hw
+    · split at hw
+      · split at hw <;> simp at hw
+      · simp at hw
+  | finish b' =>
+    simp only [Own.step] at hw
+    split at hw <;> simp at hw
+
+-- non-vacuity: deliver two sequences, the consumer hands the first back, the parser reuses its array
+example : (Own.run {} [.collect false, .dispatch none, .collect false, .dispatch none, .finish 0,
+    .collect false, .dispatch (some 0), .collect false]).isSome = true := by decide
 
 end VaxisModel.Props.C08
